@@ -58,6 +58,7 @@ func runC02(c *kit.Ctx) {
 
 	// ---- R2 ---------------------------------------------------------------
 	c.StartRule("R2", "id on the wire = id registered for the same call", 2)
+	sendPathSharesNoMemory(c)
 	{
 		rpcParam := paramOfType(send, "/hrpc.Call", 0)
 		regs := kit.Calls(send, kit.M("region", "*client", "registerRPC"))
@@ -273,6 +274,7 @@ func runC02(c *kit.Ctx) {
 	c.StartRule("R5", "region-exception fan-out", 2)
 	clearedCallSlotsAreSkipped(c)
 	multiSuccessOnlyWithoutError(c)
+	multiHasNoContextOfItsOwn(c)
 	regionExceptionUnchanged(c)
 	{
 		// same index for ra[i] and m.regions[i]; same map key r
@@ -584,6 +586,8 @@ func runC02(c *kit.Ctx) {
 func noResponseBufferRecycling(c *kit.Ctx) {
 	p := c.P
 	decompressedBufferIsFresh(c)
+	decodeTargetsAreFresh(c)
+	resultChannelsAreMadePerCall(c)
 	if recv := p.Func("region", "client", "receive"); recv != nil {
 		// the frame buffer of a response is allocated per frame
 		fresh := false
